@@ -94,6 +94,7 @@ class SrcIndex:
         self.enums={}        # name -> [variant names]
         self.enum_payload={} # name -> {variant: [field names] or count}
         self.item_mod={}     # name -> [rel file paths defining it]
+        self._defs={}
         for root,_,fs in os.walk(os.path.join(repo,'src')):
             for f in fs:
                 if f.endswith('.rs'):
@@ -105,6 +106,42 @@ class SrcIndex:
                     self.files[rel]=(raw,st,offs)
                     self._index_items(rel,st)
         self._impl_cache={}
+        self._qualify_dups()
+
+    def _qualify_dups(self):
+        """item names defined in more than one file: the first definition keeps the bare name, the others are
+        qualified with their module stem (e.g. `shims::PublicKey`)"""
+        self.dups={}
+        for name,files in self.item_mod.items():
+            if len(files)<2: continue
+            d={}
+            for i,rel in enumerate(sorted(files)):
+                stem=os.path.splitext(os.path.basename(rel))[0]
+                if stem=='mod': stem=os.path.basename(os.path.dirname(rel))
+                d[rel]=name if i==0 else stem+'::'+name
+            self.dups[name]=d
+            for rel,q in d.items():
+                if q!=name and (name,rel) in self._defs:
+                    kind,names,types,pl=self._defs[(name,rel)]
+                    if kind=='struct': self.structs[q]=names; self.struct_types[q]=types
+                    else: self.enums[q]=names; self.enum_payload[q]=pl
+            # the bare name must describe the first file's definition
+            first=sorted(files)[0]
+            if (name,first) in self._defs:
+                kind,names,types,pl=self._defs[(name,first)]
+                if kind=='struct': self.structs[name]=names; self.struct_types[name]=types
+                else: self.enums[name]=names; self.enum_payload[name]=pl
+    def qualify(self,name,text=''):
+        """qualified item name for a type mentioned as `text` (a path) whose last identifier is `name`"""
+        d=getattr(self,'dups',{}).get(name)
+        if not d: return name
+        for rel,q in d.items():
+            if q!=name and (q.split('::')[0]+'::') in text: return q
+        return name
+    def qualify_in_file(self,name,rel):
+        d=getattr(self,'dups',{}).get(name)
+        if not d: return name
+        return d.get(rel,name)
 
     def _index_items(self,rel,st):
         for m in re.finditer(r'\b(struct|enum)\s+([A-Za-z_][A-Za-z0-9_]*)\s*(<[^{;(]*>)?\s*(where[^{;]*)?([{(;])',st):
@@ -127,7 +164,7 @@ class SrcIndex:
                     types=[' '.join(re.sub(r'^\s*(?:pub(?:\([^)]*\))?\s+)?','',x).split()) for x in fs]
                 else:
                     names=[];types=[]
-                self.structs.setdefault(key,names); self.struct_types.setdefault(key,types)
+                self.structs.setdefault(key,names); self.struct_types.setdefault(key,types); self._defs[(name,rel)]=('struct',names,types,None)
             else:
                 j=match_brace(st,i); body=st[i+1:j]
                 vs=[];pl={}
@@ -148,7 +185,7 @@ class SrcIndex:
                         inner=rest[1:match_brace(rest,0,'(',')')]
                         pl[mm.group(1)]=[str(k) for k in range(len([x for x in split_top_commas(inner) if x.strip()]))]
                     else: pl[mm.group(1)]=[]
-                self.enums.setdefault(key,vs); self.enum_payload.setdefault(key,pl)
+                self.enums.setdefault(key,vs); self.enum_payload.setdefault(key,pl); self._defs[(name,rel)]=('enum',vs,None,pl)
             self.item_mod.setdefault(name,[]).append(rel)
 
     def offset(self,rel,line,col):
@@ -181,13 +218,13 @@ class SrcIndex:
                         if depth==0: break
                 h=h[k+1:].strip()
             mm=re.match(r'^(.*?)\s+for\s+(.*)$',h)
-            if mm: res=(last_ident(mm.group(1)), last_ident(mm.group(2)))
-            else: res=(None,last_ident(h))
+            if mm: res=(last_ident(mm.group(1)), self.qualify_in_file(last_ident(mm.group(2)),rel) if '::' not in mm.group(2).split('<')[0] else self.qualify(last_ident(mm.group(2)),mm.group(2)))
+            else: res=(None,self.qualify_in_file(last_ident(h),rel) if '::' not in h.split('<')[0] else self.qualify(last_ident(h),h))
         else:
             # derive: text is the trait name; self type = next struct/enum after b
             trait=text.strip().split('::')[-1]
             mm=re.compile(r'\b(struct|enum)\s+([A-Za-z_][A-Za-z0-9_]*)').search(st,b)
-            res=(trait, mm.group(2) if mm else None)
+            res=(trait, self.qualify_in_file(mm.group(2),rel) if mm else None)
         self._impl_cache[span]=res
         return res
 
